@@ -276,7 +276,7 @@ func c07(r *core.Run) {
 	r.Rule("P2", "subject templates: every subject handed to an event funnel is system.reset, system.tokenReset, conn.<V>.token, event.<R>.<E> or the request's reply subject, where R is the routed resource name, E a valid constant token or a parameter validated by isValidPart, V validated by isValidPart (the request's own cid exempt); the token validator rejects empty, <33, >126, '.', '*', '>', '?'", 16)
 	r.Rule("P3", "envelopes: every struct marshalled on a reply path has exactly one of result/resource/error (no omitempty) plus optional meta,omitempty; Error has string code and message; every static payload literal parses as JSON with exactly one of those keys, and error literals carry a declared Code* constant", 14)
 	r.Rule("P4", "meta only for HTTP: status/header are written only by the two setters, behind the !isHTTP->panic and replied->panic guards; metaObject is built only by meta(), which returns nil when nothing is set; envelope Meta fields are fed only from meta() (or nil)", 6)
-	r.Rule("P5", "marshal fallback: a json.Marshal result is published only on its err==nil edge; the error edge substitutes an error reply", 4)
+	r.Rule("P5", "marshal fallback: a json.Marshal result is published only on its err==nil edge; the error edge substitutes an error reply; where that reply is built with ToError, ToError maps by a plain type assertion (no unwrapping), so a marshal failure is always system.internalError", 4)
 	r.Rule("P6", "pre-response: both Timeout methods reject negative durations by panic before publishing and publish exactly timeout:\"<decimal ms>\" on the reply subject", 2)
 	r.Rule("P7", "event payloads: the struct published with each event kind carries the protocol's members for that kind, and agrees tag-for-tag with the client package's mirror type on the fields both declare", 10)
 
@@ -518,6 +518,7 @@ func c07(r *core.Run) {
 	c07Meta(r, root)
 
 	// ---- P5 ----------------------------------------------------------------
+	usesToError := false
 	for _, c := range marshals {
 		fn := c.Parent()
 		var data, errv ssa.Value
@@ -592,6 +593,25 @@ func c07(r *core.Run) {
 			}
 		}
 		r.Check(good, "P5", core.FuncName(fn), "marshal-output-only-on-err==nil", p.InstrPos(c), "the marshalled bytes are used only where err==nil; the error edge sends an error reply (C04.R4)", why)
+		// the marshal error becomes an internal error: it is handed to InternalError, or to ToError
+		// (json.Marshal never returns an *Error itself, so a plain assertion there yields InternalError)
+		conv := ""
+		if errv.Referrers() != nil {
+			for _, rf := range *errv.Referrers() {
+				if cc, ok := rf.(ssa.CallInstruction); ok {
+					if cal := cc.Common().StaticCallee(); cal != nil && (cal.Name() == "ToError" || cal.Name() == "InternalError") && cal.Pkg == fn.Pkg {
+						conv = cal.Name()
+						usesToError = usesToError || cal.Name() == "ToError"
+					}
+				}
+			}
+		}
+		if conv != "" {
+			r.OK("P5", core.FuncName(fn), "marshal-error->"+conv, p.InstrPos(c), "the marshal error is converted by "+conv)
+		}
+	}
+	if usesToError {
+		toErrorRule(r, "P5")
 	}
 
 	// ---- P6 ----------------------------------------------------------------
